@@ -59,6 +59,8 @@ type Flat struct {
 
 // Node is copied with the names e (source) and elem (destination).
 type Node struct {
-	Sub  []*Node
+	Sub  []*Leaf
 	Name string
 }
+
+type Leaf struct{ V int }
